@@ -250,7 +250,10 @@ impl ReadState {
             Some(Dir::Data(k)) => k,
             Some(Dir::Zero) => return Poll::Ready(Ok(0)),
             Some(Dir::Fail(kind)) => return Poll::Ready(Err(kind.into())),
-            Some(Dir::Pending) => return Poll::Pending,
+            Some(Dir::Pending) => {
+                pipe_pending();
+                return Poll::Pending;
+            }
         };
         let n = k.min(buf.len()).min(self.stream.len() - self.pos);
         buf[..n].copy_from_slice(&self.stream[self.pos..self.pos + n]);
@@ -315,6 +318,7 @@ impl WriteState {
             }
             Some(Dir::Pending) => {
                 self.events.push("wp".into());
+                pipe_pending();
                 return Poll::Pending;
             }
         };
@@ -335,6 +339,7 @@ impl WriteState {
             }
             Some(FlushDir::Pending) => {
                 self.events.push("fp".into());
+                pipe_pending();
                 Poll::Pending
             }
             Some(FlushDir::Fail(kind)) => {
@@ -408,6 +413,7 @@ impl AsyncWrite for RingWriter {
         r.call();
         if r.spurious {
             r.spurious = false;
+            pipe_pending();
             return Poll::Pending;
         }
         if buf.is_empty() {
@@ -415,6 +421,7 @@ impl AsyncWrite for RingWriter {
         }
         let free = r.cap - r.data.len();
         if free == 0 {
+            pipe_pending();
             return Poll::Pending;
         }
         let n = buf.len().min(free);
@@ -435,10 +442,16 @@ impl AsyncRead for RingReader {
         r.call();
         if r.spurious {
             r.spurious = false;
+            pipe_pending();
             return Poll::Pending;
         }
         if r.data.is_empty() {
-            return if r.closed { Poll::Ready(Ok(0)) } else { Poll::Pending };
+            return if r.closed {
+                Poll::Ready(Ok(0))
+            } else {
+                pipe_pending();
+                Poll::Pending
+            };
         }
         let n = buf.len().min(r.data.len());
         for b in buf[..n].iter_mut() {
@@ -473,6 +486,26 @@ fn consume_guard<T: DeepRead + ?Sized, G: Deref<Target = T>>(guard: G) -> Result
     Ok(s)
 }
 
+// Wake-up discipline (C08): a library future may answer Poll::Pending only when the pipe it polled in that
+// same call answered Pending (the pipe is then the one that holds the waker and will wake the task).  A Pending
+// with no pipe Pending behind it is a lost wake-up under a real executor; the harness, which polls regardless of
+// wake-ups, would not notice it otherwise.  Reported as the extra key `wake=lost` (never printed by the model).
+thread_local! {
+    static PIPE_PENDINGS: Cell<usize> = Cell::new(0);
+    static LOST_WAKE: Cell<bool> = Cell::new(false);
+}
+fn pipe_pending() {
+    PIPE_PENDINGS.with(|c| c.set(c.get() + 1));
+}
+fn pipe_pendings() -> usize {
+    PIPE_PENDINGS.with(|c| c.get())
+}
+fn note_poll<T>(before: usize, r: &Poll<T>) {
+    if r.is_pending() && pipe_pendings() == before {
+        LOST_WAKE.with(|c| c.set(true));
+    }
+}
+
 /// Polls the future until it is ready; `None` when the poll budget of the case is used up.
 fn drive<F: Future + ?Sized>(mut fut: Pin<&mut F>, polls: &Cell<usize>, limit: usize) -> Option<F::Output> {
     let waker = noop_waker();
@@ -482,7 +515,10 @@ fn drive<F: Future + ?Sized>(mut fut: Pin<&mut F>, polls: &Cell<usize>, limit: u
             return None;
         }
         polls.set(polls.get() + 1);
-        if let Poll::Ready(v) = fut.as_mut().poll(&mut cx) {
+        let before = pipe_pendings();
+        let r = fut.as_mut().poll(&mut cx);
+        note_poll(before, &r);
+        if let Poll::Ready(v) = r {
             return Some(v);
         }
     }
@@ -902,7 +938,11 @@ where
                     false
                 } else {
                     ring.borrow_mut().spurious = spurious;
+                    let before = pipe_pendings();
                     let r = catch_unwind(AssertUnwindSafe(|| send_task.as_mut().poll(&mut cx)));
+                    if let Ok(pr) = &r {
+                        note_poll(before, pr);
+                    }
                     ring.borrow_mut().spurious = false;
                     let end = match r {
                         Ok(Poll::Pending) => None,
@@ -923,7 +963,11 @@ where
                     false
                 } else {
                     ring.borrow_mut().spurious = spurious;
+                    let before = pipe_pendings();
                     let r = catch_unwind(AssertUnwindSafe(|| recv_task.as_mut().poll(&mut cx)));
+                    if let Ok(pr) = &r {
+                        note_poll(before, pr);
+                    }
                     ring.borrow_mut().spurious = false;
                     match r {
                         Ok(Poll::Pending) => (),
@@ -965,7 +1009,9 @@ where
         "sys" => run_sys::<T>(args),
         other => Err(format!("unknown io kind {}", other)),
     }));
+    let lost = LOST_WAKE.with(|c| c.replace(false));
     match r {
+        Ok(Ok(s)) if lost => format!("{} wake=lost", s),
         Ok(Ok(s)) => s,
         Ok(Err(e)) => format!("HARNESS-ERROR {}", e),
         Err(_) => "HARNESS-ERROR panic outside the guarded steps".into(),
